@@ -298,6 +298,10 @@ def parse_runs(text):
         elif l.startswith("FAIL "):
             if cur is not None:
                 cur["fails"].append(l[5:])
+        elif l.startswith("ALTS "):
+            # strategy 4 (checks/dfs.py): alternatives per decision position; not part of the trace
+            if cur is not None:
+                cur["alts"] = l[5:]
         elif l.startswith("CRASH "):
             # attach to the incomplete run if there is one, else create a pseudo run
             if runs and runs[-1]["status"] == "incomplete":
@@ -318,7 +322,7 @@ def parse_runs(text):
 
 def drive(comp, text):
     """pipe client output through the Lean driver; returns (verdicts[list of str], summary dict)"""
-    text = "\n".join(l for l in text.split("\n") if not l.startswith(("START ", "CRASH ", "CRASHLOG ")))
+    text = "\n".join(l for l in text.split("\n") if not l.startswith(("START ", "CRASH ", "CRASHLOG ", "ALTS ")))
     p = subprocess.run([DRIVER, comp], input=text, stdout=subprocess.PIPE, stderr=subprocess.STDOUT, text=True, timeout=1200)
     verdicts = []
     summary = {}
@@ -486,10 +490,11 @@ def coverage_check(cname, c, seed):
         return summary, missing
 
 
-def explore(prop, tier, seed, comp_names, t0):
+def explore(prop, tier, seed, comp_names, t0, dfs=False):
     """run the harness for each component of the property; returns (stats, problems)
     problems: list of dict(kind, component, detail, run) where kind in
-      'build' | 'reject' | 'monitor' | 'oracle' | 'coverage' | 'crash'"""
+      'build' | 'reject' | 'monitor' | 'oracle' | 'coverage' | 'crash'
+    dfs: additionally enumerate the schedules of every directed script systematically (checks/dfs.py)"""
     stats = {"components": {}}
     problems = []
     for cname in comp_names:
@@ -504,6 +509,8 @@ def explore(prop, tier, seed, comp_names, t0):
         texts = []
         # directed scripts (path forcing) first
         ndirected = int(subprocess.run([exe, "--count-directed"], stdout=subprocess.PIPE, text=True).stdout.strip() or "0")
+        if dfs and tier == "thorough" and os.environ.get("VERIF_DFS_ONLY") == "1":
+            nd = nrand = 0    # self-test of the systematic search: no sampled schedules at all
         texts.append(run_client(exe, ["--directed", "--runs", str(nd), "--seed", str(seed)], ndirected * nd))
         # random scripts / schedules, split over processes
         nproc = max(1, min(NCPU, nrand // 100))
@@ -552,6 +559,19 @@ def explore(prop, tier, seed, comp_names, t0):
         if summary.get("missing"):
             problems.append(dict(kind="coverage", component=cname, detail="model edges never exercised: " + " ".join(summary["missing"]),
                                  run=None))
+        if dfs and tier == "thorough":
+            import dfs as dfs_mod
+            if dfs_mod.ENABLED:
+                # time budget: per component, and about 5 minutes for all components of the property together (every
+                # component keeps at least 20 s)
+                later = len(comp_names) - comp_names.index(cname) - 1
+                used = sum(v["dfs"]["wall_s"] for v in stats["components"].values() if v.get("dfs"))
+                tb = max(20.0, min(dfs_mod.TIME, dfs_mod.TOTAL - used - 20.0 * later))
+                ds, dp = dfs_mod.explore_component(cname, c, exe, seed, DRIVER, parse_runs, ncpu=NCPU, time_budget=tb)
+                cs["dfs"] = ds
+                for k in ("runs", "events", "accepted", "rejected", "deadlocks", "steplimits"):
+                    cs[k] += ds[k]
+                problems += dp
         csum, cmiss = coverage_check(cname, c, seed)
         if csum is not None:
             cs["source_coverage"] = csum
@@ -679,7 +699,7 @@ def run_check(prop, tier, seed):
     # 4. exploration
     stats, problems = ({"components": {}}, [])
     if ok:
-        stats, problems = explore(prop, tier, seed, spec["components"], t0)
+        stats, problems = explore(prop, tier, seed, spec["components"], t0, dfs=True)
         if tier == "thorough":
             # further independent seeds (fresh random scripts and schedules); stop at the first problem
             for extra_seed in (seed + 1000, seed + 2000):
@@ -722,6 +742,7 @@ def run_check(prop, tier, seed):
                                        script=r.get("script"), seed=r.get("seed"), strategy=r.get("strat"),
                                        decisions=r.get("decisions"), trace=r.get("trace"), model_verdict=r.get("verdict"),
                                        original_script=orig_script if orig_script != r.get("script") else None,
+                                       search=r.get("dfs"),   # set when the systematic search (checks/dfs.py) found the run
                                        lean_problem=lean_problem))
         violations.append((path, True, p["detail"].split("\n")[0][:200]))
         if len(violations) >= 3:
@@ -732,7 +753,7 @@ def run_check(prop, tier, seed):
         found = None
         if tier == "quick" and ok:
             comps = sorted(set(p["component"] for p in corr)) or spec["components"]
-            s2, p2 = explore(prop, "thorough", seed + 1, comps, t0)
+            s2, p2 = explore(prop, "thorough", seed + 1, comps, t0, dfs=True)
             for p in p2:
                 if p["kind"] in ("monitor", "oracle", "crash"):
                     found = p
@@ -784,6 +805,27 @@ def run_check(prop, tier, seed):
         violations=len(violations),
         known_findings=[f["id"] for f in known_hits],
     )
+    dfs_cov = {k: {f: v["dfs"][f] for f in ("scripts", "runs", "exhausted_scripts", "truncated_scripts", "preemption_bound",
+                                              "weak_event_bound", "run_budget_per_script", "time_budget_s", "time_budget_hit",
+                                              "min_complete_level", "wall_s")}
+               for k, v in stats["components"].items() if v.get("dfs")}
+    if dfs_cov:
+        # systematic exploration of the directed scripts (checks/dfs.py); part of the failing-input search, never of the claim
+        ev["coverage"]["dfs"] = dfs_cov
+        every = all(k in dfs_cov and dfs_cov[k]["scripts"] > 0 and dfs_cov[k]["exhausted_scripts"] == dfs_cov[k]["scripts"]
+                    for k in spec["components"])
+        if every:
+            ev["coverage"]["exhaustive"] = True
+        b = next(iter(dfs_cov.values()))
+        ev["coverage"]["rule"] += (
+            "; dfs = additionally every directed script's schedules are enumerated systematically (stateless depth-first search "
+            "over the scheduler's decisions: thread choice, time-out / spurious wake-up, try/CAS/notify choices) within the "
+            "bounds <= %d preemptions and <= %d weak events (time-out with other work available, spurious or late wake-up, "
+            "spurious CAS failure) per run, a thread that has just yielded not being rescheduled while another can run, at most "
+            "%d runs per script; a script is 'exhausted' when its whole search space within these bounds was run; "
+            "exhaustive is set only when every directed script of every component of the property was exhausted%s" % (
+                b["preemption_bound"], b["weak_event_bound"], b["run_budget_per_script"],
+                " (it was)" if every else " (it was not: see dfs.*.truncated_scripts)"))
     os.makedirs(EVID, exist_ok=True)
     json.dump(ev, open(os.path.join(EVID, prop + ".json"), "w"), indent=1)
     seen = set()
